@@ -10,15 +10,26 @@ let handle (f : string array) : string =
   match f.(0) with
   | "G" ->
     let key = bytes_of_hex f.(2) and iv = bytes_of_hex f.(3) and a = bytes_of_hex f.(4) and p = bytes_of_hex f.(5) in
-    (match sm4GCM e key iv p a true with
-     | Ok (c, t) ->
-       (match sm4GCM e key iv c a false with
-        | Ok (p', t') ->
+    let can_iv = bytes_of_hex f.(6) and can_a = bytes_of_hex f.(7) and can_p = bytes_of_hex f.(8) in
+    (* the caller's heap: key, and IV / A / P (then C) in front of their canaries; slices with that spare capacity *)
+    let sl i l can = { s_arr = nat_of_int i; s_off = O; s_len = nat_of_int (List.length l);
+                       s_cap = nat_of_int (List.length l + List.length can) } in
+    let rec take n l = if n = 0 then [] else (match l with [] -> [] | x :: r -> x :: take (n - 1) r) in
+    let call x mode =
+      let h = [key; iv @ can_iv; a @ can_a; x @ can_p] in
+      (match sm4GCM_mem e h (sl 0 key []) (sl 1 iv can_iv) (sl 3 x can_p) (sl 2 a can_a) mode with
+       | Ok (h', r) -> Ok (r, take 4 h' = h)
+       | Err n -> Err n | Panic -> Panic | Hang -> Hang) in
+    (match call p true with
+     | Ok ((c, t), m1) ->
+       (match call c false with
+        | Ok ((p', t'), m2) ->
           let direct =
             (match gCMEncrypt e key iv p a, gCMDecrypt e key iv c a with
              | Ok (c2, t2), Ok (p3, t3) -> c2 = c && t2 = t && p3 = p' && t3 = t'
              | _ -> false) in
-          String.concat " " ["ok"; hex_of_bytes c; hex_of_bytes t; hex_of_bytes p'; hex_of_bytes t'; "1"; (if direct then "1" else "0")]
+          String.concat " " ["ok"; hex_of_bytes c; hex_of_bytes t; hex_of_bytes p'; hex_of_bytes t';
+                             (if m1 && m2 then "1" else "0"); (if direct then "1" else "0")]
         | r -> fail r)
      | r -> fail r)
   | "V" ->
